@@ -256,6 +256,18 @@ fn norm(c: &SimCtx, path: &[u8]) -> String {
     s
 }
 
+/// Chunked I/O (a few bytes per call) exercises the read / write loops of the code under test;
+/// after 20 000 read and write calls of one process the chunk grows to at least 4 KiB, so that a
+/// multi-megabyte artifact does not cost millions of calls (a function of the call count only,
+/// hence as deterministic as everything else).
+fn effective_chunk(c: &SimCtx) -> usize {
+    if c.chunk == 0 {
+        return 0;
+    }
+    let calls = c.counts[Call::Read.idx()] + c.counts[Call::Write.idx()];
+    if calls < 20_000 { c.chunk } else { (c.chunk * 256).max(4096) }
+}
+
 enum Pre {
     Go(Option<Action>),
     Dead,
@@ -596,8 +608,9 @@ pub unsafe extern "C" fn read(fd: c_int, buf: *mut c_void, count: size_t) -> ssi
         Pre::Go(act) => {
             let mut n = count;
             let mut fault = None;
-            if c.chunk > 0 && n > c.chunk {
-                n = c.chunk;
+            let chunk = effective_chunk(c);
+            if chunk > 0 && n > chunk {
+                n = chunk;
             }
             if let Some(Action::Short(k)) = act {
                 if k < n && k > 0 {
@@ -674,8 +687,9 @@ pub unsafe extern "C" fn write(fd: c_int, buf: *const c_void, count: size_t) -> 
         Pre::Go(act) => {
             let mut n = count;
             let mut fault = None;
-            if c.chunk > 0 && n > c.chunk {
-                n = c.chunk;
+            let chunk = effective_chunk(c);
+            if chunk > 0 && n > chunk {
+                n = chunk;
             }
             match act {
                 Some(Action::Short(k)) if k > 0 && k < n => {
